@@ -261,6 +261,7 @@ pub fn generate(rng: &mut Rng, property: &str, deep: bool) -> BScn {
     let insert_after_end = cfg.selector_inserted_later && cfg.selector_animator_prebuilt && rng.chance(0.5);
     let mut selector_present = cfg.selector && !cfg.selector_inserted_later;
     let mut selector_removed = false;
+    let p_seek = if property != "C19" { on(rng, 0.03) } else { on(rng, 0.005) };
     let p_extra_parts = if cfg.extra_entity.is_some() { on(rng, 0.04) } else { 0.0 };
     let p_remove_selector = if cfg.selector { on(rng, 0.02) } else { 0.0 };
     let p_edit_timelines = if cfg.selector { on(rng, 0.05) } else { 0.0 };
@@ -320,6 +321,14 @@ pub fn generate(rng: &mut Rng, property: &str, deep: bool) -> BScn {
                 key,
                 tl: if rng.chance(0.7) { Some(rng.usize_below(cfg.tls.len())) } else { None },
             });
+        }
+        if rng.chance(p_seek) {
+            let astronomical = if (extreme && rng.chance(0.4)) || rng.chance(0.03) { rng.range(1, 4) as u8 } else { 0 };
+            ops.push(BOp::Seek {
+                eighths_of_total: *rng.pick(&[0u32, 1, 4, 7, 8, 8, 9, 16, 3, 6]),
+                astronomical,
+            });
+            fault = "seek";
         }
         // user: key assignments
         let p_k = if just_ended { p_key.max(p_after_end) } else { p_key };
